@@ -10,6 +10,18 @@ BASELINE_OFF = ("cd /repo && env -u CNES_PANDORA_VERIF /venv/bin/python -m pytes
 
 # id -> (technique, level text, level note, design ref)
 CLAIMED = {
+    "C06": (
+        "Hypothesis-generated cost volumes / disparity maps and captured pipeline states vs. per-pixel V-fit / parabola reference",
+        "Exploration: (a) direct calls on generated volumes and maps (winner samples, other samples, off-sample values, "
+        "NaN holes, flat and tied triples, pre-set bit 3, min/max, subpix 1/2/4); (b) the state received by every "
+        "refinement step of generated legal pipelines (after filters, after a previous refinement) captured by "
+        "harness-side wrappers. Each valid on-sample pixel is compared with an independent derivation of the fit "
+        "(shift, half-sample bound, fitted cost, never worse), stop conditions and bit 3, invalid pixels untouched, "
+        "no exception.",
+        "Trusted: reference in pbt/props/c06.py (1e-5 relative tolerance, float32 storage). Off-sample received "
+        "disparities and NaN centre costs are judged on the weak clauses only (counted as unspecified).",
+        "DESIGN.md §5 C06",
+    ),
     "C03": (
         "Hypothesis-generated cost volumes vs. plane-by-plane first-strictly-better scan (reference model)",
         "Exploration: generated cost-volume datasets (tiny shapes and tile-constructed shapes straddling the 100-pixel "
